@@ -381,9 +381,23 @@ def plan(tier):
     return [{'kind': 'helpers', 'examples': 300 if q else 12000} for _ in range(8 if q else 16)]
 
 
+def _own_tmp(f):
+    """A helper built without base_dir makes itself a directory under the system's temporary directory and never
+    removes it; for the time of a shard that is a scratch directory of the shard, dropped afterwards."""
+    import tempfile
+    root = hyp.scratch_dir('tcv-c19tmp-')
+    before = tempfile.tempdir
+    tempfile.tempdir = str(root)
+    try:
+        return f()
+    finally:
+        tempfile.tempdir = before
+        hyp.drop_scratch(root)
+
+
 def run_shard(shard, seed, tier, rec):
-    hyp.run_given(rec, cases(), lambda c: eval_case(c, rec), seed, shard['examples'], kind='helpers')
+    _own_tmp(lambda: hyp.run_given(rec, cases(), lambda c: eval_case(c, rec), seed, shard['examples'], kind='helpers'))
 
 
 def replay(doc, rec):
-    eval_case(doc['case'], rec)
+    _own_tmp(lambda: eval_case(doc['case'], rec))
